@@ -1,7 +1,7 @@
 """C17 — meaning is stable under any sequence of presentation-level operations."""
 import random
 
-from harness import common, core, vers
+from harness import common, core, text, vers
 
 OPS = ["printparse", "permute", "simplify", "validate", "invert2", "parse_s", "parse_v", "parse_sv"]
 
@@ -56,6 +56,26 @@ def run(ctx):
             continue
         star = pat == [("*", None)]
         rng = s.rcls(constraints=s.constraints(pat))
+        # half of the walks start from text whose constraints are written in a shuffled order (a registered scheme only)
+        if not star and len(pat) > 1 and wi % 2 == 0 and s.rcls.scheme in vr.RANGE_CLASS_BY_SCHEMES and vr.RANGE_CLASS_BY_SCHEMES[s.rcls.scheme] is s.rcls:
+            parts = str(rng).split("/", 1)[1].split("|")
+            r.shuffle(parts)
+            start_text = f"vers:{s.rcls.scheme}/" + "|".join(parts)
+            if all(text.version_text_ok(str(c.version)) for c in rng.constraints):
+                fs0 = ops and ops[0] == "simplify"
+                try:
+                    rng2 = vr.VersionRange.from_string(start_text, simplify=False, validate=False)
+                    if not (rng2 == rng):
+                        viol(f"{s.rcls.scheme}: {start_text!r} does not parse to the range {rng}", inputs=dict(start=start_text))
+                    # the first operation of the history applied through the text parser on the shuffled text
+                    if fs0:
+                        simp_text = vr.VersionRange.from_string(start_text, simplify=True)
+                        simp_obj = type(rng)(constraints=vc.VersionConstraint.simplify(list(rng.constraints)))
+                        if not (simp_text == simp_obj) or str(simp_text) != str(simp_obj):
+                            viol(f"{s.rcls.scheme}: parsing {start_text!r} with simplify gives {simp_text}, simplifying the same range gives {simp_obj}",
+                                 inputs=dict(start=start_text, history=["parse_s"]), observed=str(simp_text), expected=str(simp_obj))
+                except Exception as e:  # noqa
+                    viol(f"{s.rcls.scheme}: parsing {start_text!r} raised {e!r}", inputs=dict(start=start_text))
         nprobe = 2 * len(pat) + 1 if not star else 3
         probes = [s.version(p) for p in range(1, nprobe + 1)]
         base = [vers.res_bool(lambda: v in rng) for v in probes]
